@@ -108,7 +108,9 @@ def c18(tier):
                 "has been continuously ready and the connection set is unchanged) and FairBound, 3 connections "
                 "(flooder, single-call clients, stream transitions), all interleavings; the model mutant "
                 "start=lastCall must violate FairWindow; implementation: flooders with whole calls buffered next to "
-                "single-call clients arriving at arbitrary moments, with and without stream transitions; the order "
+                "single-call clients arriving at arbitrary moments, with and without stream transitions, and mixed roles "
+                "(flooders, single-call clients, clients that open a stream and then stay silent) connecting and sending in any "
+                "order; the order "
                 "in which calls reach the service is validated by TLC against the same counters in ServerTrace; "
                 "non-trivial = every scenario (>=2 connections, one flooding)")
     chk.assumptions = ["'has had a complete call waiting' = the call's bytes were fully available and the connection "
@@ -118,6 +120,8 @@ def c18(tier):
     run_family(chk, "server", "prod", ["--seed", s, "--n", 10000 if thorough else 1500, "--mode", "fair"], [ST], "fair")
     run_family(chk, "server", "prod", ["--seed", s + 1, "--n", 10000 if thorough else 1500, "--mode", "fairtrans"], [ST],
                "fair-transitions")
+    run_family(chk, "server", "prod", ["--seed", s + 2, "--n", 10000 if thorough else 1500, "--mode", "fairmixed"], [ST],
+               "fair-mixed-roles")
     chk.nontrivial = chk.traces_ok
     return chk.finish()
 
